@@ -50,9 +50,15 @@ class ClassInfo:
         self.node = node
         self.name = node.name
         self.methods = {}
+        self.setters = {}        # name -> FunctionInfo of `@name.setter`
         self.attrs = {}          # class-level assignments: name -> ast expr
         for st in node.body:
             if isinstance(st, (ast.FunctionDef,)):
+                if any(isinstance(d, ast.Attribute) and d.attr == "setter" for d in st.decorator_list):
+                    fi = FunctionInfo(module, st, cls=self)
+                    fi.qualname = fi.qualname + "@setter"
+                    self.setters[st.name] = fi
+                    continue
                 self.methods[st.name] = FunctionInfo(module, st, cls=self)
             elif isinstance(st, ast.Assign):
                 for t in st.targets:
@@ -76,6 +82,14 @@ class ClassInfo:
         if self._mro is None:
             self._mro = _c3(self)
         return self._mro
+
+    def lookup_setter(self, name):
+        for c in self.mro():
+            if name in c.setters:
+                return c.setters[name]
+            if name in c.methods or name in c.attrs:
+                return None
+        return None
 
     def lookup(self, name):
         """(kind, owner, thing): kind in method/attr, following the MRO"""
@@ -231,11 +245,20 @@ class Repo:
             for nm in parts[k + 1:]:
                 if nm == "<locals>":
                     continue
+                want = 0
+                if "~" in nm:
+                    nm, w = nm.split("~")
+                    want = int(w)
                 found = None
+                seen = 0
                 for st in ast.walk(cur.node):
                     if isinstance(st, ast.FunctionDef) and st.name == nm and st is not cur.node:
-                        found = FunctionInfo(m, st, outer=cur)
-                        break
+                        if seen == want:
+                            found = FunctionInfo(m, st, outer=cur)
+                            if want:
+                                found.qualname += "~%d" % want
+                            break
+                        seen += 1
                 if found is None:
                     raise KeyError(qualname)
                 cur = found
@@ -245,6 +268,8 @@ class Repo:
                 return m.functions[parts[0]]
             raise KeyError(qualname)
         cls = m.classes.get(parts[0])
+        if cls is not None and parts[1].endswith("@setter") and parts[1][:-7] in cls.setters:
+            return cls.setters[parts[1][:-7]]
         if cls is None or parts[1] not in cls.methods:
             raise KeyError(qualname)
         return cls.methods[parts[1]]
